@@ -50,6 +50,38 @@ let () =
              Printf.printf "%s M %s | J 1\n" id (Stdlib.String.concat " " (List.map enc outs))
            | [] -> Printf.printf "%s BAD\n" id)
         with Failure _ -> Printf.printf "%s BAD\n" id)
+      | [id; req; _obs] when Stdlib.String.get id 0 = 'm' ->
+        (* m-lines:  <id> : ndirs (dir nfiles (content)…)… ; calls: 0 d f | 1 d f e c | 2 d f c | 3 d d' | 4 d f d' f' | 5 d f | 6 d
+           outs: 0 v c | 1 v | 3 (not found) | 4 (exists) | 5 (done) *)
+        (try
+          (match List.map int_of_string (split_ws req) with
+           | nd :: rest ->
+             let disk = ref [] in
+             let rest = ref rest in
+             let pop () = (match !rest with x :: r -> rest := r; x | [] -> failwith "short") in
+             for _ = 1 to nd do
+               let d = pop () in let nf = pop () in
+               for f = 0 to nf - 1 do let c = pop () in disk := ((nat_of_int d, nat_of_int f), nat_of_int c) :: !disk done
+             done;
+             let key () = let d = pop () in let f = pop () in (nat_of_int d, nat_of_int f) in
+             let calls = ref [] in
+             while !rest <> [] do
+               let c = (match pop () with
+                 | 0 -> MOpen (key ())
+                 | 1 -> let k = key () in let e = pop () in let c = pop () in MApply (k, nat_of_int e, nat_of_int c)
+                 | 2 -> let k = key () in let c = pop () in MExternal (k, nat_of_int c)
+                 | 3 -> let d = pop () in let d2 = pop () in MRenameDir (nat_of_int d, nat_of_int d2)
+                 | 4 -> let k = key () in let k2 = key () in MRenameFile (k, k2)
+                 | 5 -> MDelete (key ())
+                 | _ -> MDeleteDir (nat_of_int (pop ()))) in
+               calls := c :: !calls
+             done;
+             let outs = mrun { md_disk = List.rev !disk; md_docs = [] } (List.rev !calls) in
+             let enc = function MVersion (v, c) -> Printf.sprintf "0 %d %d" (int_of_nat v) (int_of_nat c) | MConflict v -> Printf.sprintf "1 %d" (int_of_nat v)
+                              | MNotFound -> "3" | MExists -> "4" | MDone -> "5" in
+             Printf.printf "%s M %s | J 1\n" id (Stdlib.String.concat " " (List.map enc outs))
+           | [] -> Printf.printf "%s BAD\n" id)
+        with Failure _ -> Printf.printf "%s BAD\n" id)
       | id :: _ -> Printf.printf "%s BAD\n" id
       | [] -> ()
     end
